@@ -110,7 +110,7 @@ var containerTags = []string{"textarea", "title", "pre", "option", "td", "li", "
 // element, no attribute) and the canary are asserted for them.
 var rawTextTags = map[string]bool{"xmp": true, "iframe": true, "noembed": true, "noframes": true}
 
-var sinks = []string{"in:textarea", "in:title", "in:pre", "in:option", "in:td", "in:li", "in:button", "in:h1", "in:a", "in:label", "in:code", "in:summary", "in:noscript", "in:xmp", "in:iframe", "in:noembed", "in:noframes", "nsattr", "pretext", "prevtext", "preattr", "prebound", "boundmustache", "boundmustacheclass", "vtext:xmp", "vtext:iframe", "vtext:noembed", "vtext:noframes", "vtext:textarea", "vtext:title", "vtext:noscript", "text", "vtext", "attr", "bound", "vbind", "class", "style", "loop", "loopattr", "loopchild", "incstatic", "incbound", "incattr", "inctplroot", "inctplrootattr", "slotinc", "slotincplain", "slotprop", "layout", "layoutattr", "ifself", "elseself"}
+var sinks = []string{"in:textarea", "in:title", "in:pre", "in:option", "in:td", "in:li", "in:button", "in:h1", "in:a", "in:label", "in:code", "in:summary", "in:noscript", "in:xmp", "in:iframe", "in:noembed", "in:noframes", "nsattr", "pretext", "prevtext", "preattr", "prebound", "boundmustache", "boundmustacheclass", "vtext:xmp", "vtext:iframe", "vtext:noembed", "vtext:noframes", "vtext:textarea", "vtext:title", "vtext:noscript", "elsefor", "elseforattr", "elseiffor", "text", "vtext", "attr", "bound", "vbind", "class", "style", "loop", "loopattr", "loopchild", "incstatic", "incbound", "incattr", "inctplroot", "inctplrootattr", "slotinc", "slotincplain", "slotprop", "layout", "layoutattr", "ifself", "elseself"}
 var encs = []string{"bare", "if", "else", "tplif", "nested", "loopchild", "elseif"}
 
 // tokens: the hostile alphabet. The first coreN are enumerated exhaustively.
@@ -207,6 +207,13 @@ func buildSink(c Case, n nb) program {
 		return program{tpl: wrap(c.Enc, `<p data-m="s" :title="{{ v }}" v-bind:lang="x{{ v }}">x</p>`), attr: "title"}
 	case "boundmustacheclass":
 		return program{tpl: wrap(c.Enc, `<p data-m="s" class="st" :class="{{ v }}">x</p>`), attr: "class"}
+	case "elsefor":
+		// the root of a loop that is itself the chosen v-else / v-else-if member of a chain
+		return program{tpl: wrap(c.Enc, `<ul><li v-if="no">n</li><li v-else v-for="i in items" data-m="s" :title="i">{{ i }}</li></ul>`), attr: "title"}
+	case "elseforattr":
+		return program{tpl: wrap(c.Enc, `<ul><li v-if="no">n</li><li v-else v-for="i in items" data-m="s" title="`+n.LS+`{{ i }}`+n.RS+`" :lang="i">x</li></ul>`), attr: "title", useNb: true}
+	case "elseiffor":
+		return program{tpl: wrap(c.Enc, `<ul><li v-if="no">n</li><li v-else-if="yes" v-for="(n, i) in items" data-m="s" :title="i" data-n="{{ n }}"><b :title="i">{{ i }}</b></li><li v-else>e</li></ul>`), attr: "title"}
 	case "nsattr":
 		// fallback markup inside <noscript>: an attribute of an element there
 		return program{tpl: wrap(c.Enc, `<noscript><img data-m="s" src="`+n.LS+`{{ v }}`+n.RS+`" alt="x"><p>{{ v }}</p></noscript>`), attr: "src", useNb: true}
@@ -457,11 +464,9 @@ func classify(c Case) (bool, []string) {
 
 // falsy values make bound attributes disappear (C14's subject, not inertness): skip them there.
 func applicable(c Case) bool {
-	v := strings.TrimSpace(c.Value)
-	if v == "" || v == "false" {
-		return false
-	}
-	return true
+	// only the two documented falsy strings; whitespace-only values and " false" are ordinary
+	// truthy strings and must keep their attribute
+	return c.Value != "" && c.Value != "false"
 }
 
 func replay(kind string, raw json.RawMessage) error { return run.Decode(raw, check) }
